@@ -222,6 +222,8 @@ def run(index, tier="quick", seed=0) -> Result:
                 res.ok("STL-1", "to_stl", sample={"facets": nfac, "fan": fan["elts"]})
     _x3d(res, io)
     _dispatch(res, index, writers)
+    from ..parallel import report as _copy1
+    _copy1(res, index, lambda f: f['module'] == 'coxeter.io')
     return res
 
 
